@@ -420,7 +420,8 @@ def ps(s):
     if k == "def":
         params = ", ".join((p["ty"] + " " if p["ty"] else "") + p["n"] for p in s["params"])
         g = f" : {pe(s['guard'])}" if s["guarded"] else ""
-        return f"def {s['n']}({params}){g} " + blk(s['b'])
+        name = s['n'] if s['n'].isidentifier() else f"`{s['n']}`"      # operators are defined under their back-quoted name
+        return f"def {name}({params}){g} " + blk(s['b'])
     if k == "class":
         t = f"class {s['n']} {{ " + " ".join(f"var {a};" for a in s["attrs"])
         t += f" def {s['n']}({', '.join(p['n'] for p in s['ctor']['params'])}) " + blk(s['ctor']['b'])
